@@ -25,24 +25,61 @@ def permuteKeepingTypes (ps : List Part) : G (List Part) := do
   pure out.reverse
 
 def lowerFillers : Array String := #["and", "then", "the", "if", "or else", ", ", "shall;", "in 2020", "provided that", ".",
-  "42", "it is so:", "x-y", "e.g.", "under §5", "at 100%", "a/b", "#1", "~", "+", "& co"]
+  "42", "it is so:", "x-y", "e.g.", "under §5", "at 100%", "a/b", "#1", "~", "+", "& co", ":", "in the following cases:", "option one:", ";", "!", "*", "50%", "a=b", "@home", "£5", "`q`", "\"quoted\"", "it's"]
+
+/-- punctuation and scripts outside the character class the parser's brace patterns accept
+    (`SPECIAL_SYMBOLS`, `a-zA-ZÀ-ž0-9`): known-finding class when written inside braces -/
+def oddFillers : Array String := #["?", "–", "why?", "«so»", "字", "и", "…", "¿", "^", "_x_"]
 
 mutual
-partial def varyStmt (s : Stmt) : G Stmt := do
+partial def varyStmt (pool : Array String) (s : Stmt) : G Stmt := do
   -- drop existing filler, permute, vary nested statements, insert fresh filler at gaps
   let core := s.parts.filter (fun p => !Part.isFiller p || (match p with | .filler w => contains (str "[") w | _ => false))
   let perm ← permuteKeepingTypes core
   let mut out : List Part := []
   for p in perm do
-    if (← chance 2 5) then out := .filler (← pickA lowerFillers).toList :: out
-    out := (← varyPart p) :: out
-  if (← chance 1 3) then out := .filler (← pickA lowerFillers).toList :: out
+    if (← chance 2 5) then out := .filler (← pickA pool).toList :: out
+    out := (← varyPart pool p) :: out
+  if (← chance 1 3) then out := .filler (← pickA pool).toList :: out
   pure (.mk out.reverse)
-partial def varyPart (p : Part) : G Part := do
+partial def varyPart (pool : Array String) (p : Part) : G Part := do
   match p with
-  | .nested h inner => pure (.nested h (← varyStmt inner))
+  | .nested h inner => pure (.nested h (← varyStmt pool inner))
+  | .pairs t => pure (.pairs (← varyG pool t))
+  | .ncomb h t => pure (.ncomb h (← varyN pool t))
   | x => pure x
+/-- groups of a pair combination: free reordering and refilling inside each group -/
+partial def varyG (pool : Array String) (t : GTree) : G GTree := do
+  match t with
+  | .grp s => pure (.grp (← varyStmt pool s))
+  | .op o l r => pure (.op o (← varyG pool l) (← varyG pool r))
+/-- operands of a nested-statement combination: filler is renewed, the order is kept (a nested
+    component must stay the last part of an operand to remain in the supported class) -/
+partial def varyN (pool : Array String) (t : NTree) : G NTree := do
+  match t with
+  | .one h s =>
+    let core := s.parts.filter (fun p => !Part.isFiller p)
+    let mut out : List Part := []
+    for p in core do
+      if (← chance 2 5) then out := .filler (← pickA pool).toList :: out
+      out := p :: out
+    pure (.one h (.mk out.reverse))
+  | .op o l r => pure (.op o (← varyN pool l) (← varyN pool r))
 end
+
+/-- whitespace / punctuation variants around brace-level operators (text level) -/
+def replaceAllStr (s pat rep : String) : String := rep.intercalate (s.splitOn pat)
+
+def tightenOps (k : Nat) (s : String) : String := Id.run do
+  let mut out := s
+  for op in ["[AND]", "[OR]", "[XOR]"] do
+    for c in "ABCDEFIMOP{".toList do
+      let follow := String.singleton c
+      match k % 3 with
+      | 0 => out := replaceAllStr out (op ++ " " ++ follow) (op ++ follow)            -- `[XOR]I(`
+      | 1 => out := replaceAllStr out ("} " ++ op ++ " " ++ follow) ("}," ++ op ++ " " ++ follow)  -- `},[XOR] Cac{`
+      | _ => out := replaceAllStr out (") " ++ op ++ " " ++ follow) (")," ++ op ++ " " ++ follow)  -- `),[XOR] I(`
+  pure out
 
 def genC18Cases (tier : String) (seed : Nat) : Array Case := Id.run do
   let nbase := if tier = "thorough" then 500 else 50
@@ -61,11 +98,28 @@ def genC18Cases (tier : String) (seed : Nat) : Array Case := Id.run do
     let c0 : Case := { id := s!"c18-{b}-base", op := "parse", args := a0, exp := exp, tag := "base" }
     out := out.push c0
     for v in [0:nvar] do
-      let (s', r2) := varyStmt s rng
+      let (s', r2) := varyStmt lowerFillers s rng
       rng := r2
       let a1 := Json.mkObj [("text", (String.ofList (renderS s') : Json))]
       let c1 : Case := { id := s!"c18-{b}-{v}", op := "parse", args := a1, exp := exp, tag := "permuted+refilled" }
       out := out.push c1
+      -- the same variant with less whitespace / with punctuation around brace-level operators
+      let t2 := tightenOps (b + v) (String.ofList (renderS s'))
+      if t2 ≠ String.ofList (renderS s') then
+        -- `},[OR] Cac{`: text between an operand of a nested-statement combination and the operator
+        let kf := if (b + v) % 3 = 1 then "C18-text-between-nested-operands-kept-as-shared-text" else ""
+        let c2 : Case := { id := s!"c18-{b}-{v}w", op := "parse", args := Json.mkObj [("text", (t2 : Json))], exp := exp, tag := "operator-whitespace",
+                           note := Json.mkObj [("kf", (kf : Json))] }
+        out := out.push c2
+    -- one variant with punctuation / scripts outside the accepted character class
+    let (s'', r3) := varyStmt (lowerFillers ++ oddFillers ++ oddFillers) s rng
+    rng := r3
+    let t3 := String.ofList (renderS s'')
+    let hasOdd := oddFillers.any (fun f => (t3.splitOn f).length > 1)
+    let hasBrace := t3.contains '{'
+    let c3 : Case := { id := s!"c18-{b}-odd", op := "parse", args := Json.mkObj [("text", (t3 : Json))], exp := exp, tag := "unusual-punctuation",
+                       note := Json.mkObj [("kf", ((if hasOdd && hasBrace then "C18-characters-outside-accepted-class-inside-braces" else "") : Json))] }
+    out := out.push c3
   pure out
 
 end Drv
